@@ -258,15 +258,20 @@ def sorted_lists(ctx, sorted_locals):
         return
     N = Norm(fn)
     reps = 0
-    for node, items, kind, parent in T.find_templates(fn["body"]):
-        for e, info, in_rep in T.interps(items):
-            if not info.get("rep"):
-                continue
+    from ..core.norm import subterms as _subterms
+    # every repetition of every emitted template, read off the function's term (a loop `for x in xs { x.to_tokens(tokens) }` is the repetition
+    # `#( #xs )*`; a private helper doing the collect + sort is looked through)
+    found = []
+    for x in _subterms(N.term(fn["body"])):
+        if x[0] == "tpl" and "#(" in x[2]:
+            for k in re.findall(r"#\( #(\d+)", x[2]):
+                found.append((x[2], x[3][int(k)]))
+    node = fn["body"]
+    for text, t in found:
+        if True:
             reps += 1
-            key = "sorted-list/" + T.render_pos(items)
-            # the iterated value as a term (a private helper doing the collect + sort is looked through): the set collected into a Vec,
-            # then exactly one sort, unconditionally
-            t = N.term(e)
+            key = "sorted-list/" + text
+            # the iterated value: the set collected into a Vec, then exactly one sort, unconditionally
             effs = t[3] if t[0] == "mut" else []
             if t[0] != "mut" or not re.fullmatch(r"Iterator::collect\(P0\.\w+\)", show(t[2])) or len(effs) != 1 \
                     or effs[0][0] != "mutcall" or effs[0][2] != "" or effs[0][-1] or len(effs[0][3]) != 1:
